@@ -26,7 +26,31 @@ def gen(tier, rng):
         out.append(('acct%05d' % i, '\n'.join(lines) + '\n'))
     for i in range(n // 4):
         out.append(('quar%05d' % i, gen_quarantine_script(rng)))
+    out += [('calledoff%05d' % i, gen_called_off_switch_script(rng)) for i in range(max(4, len(out) // 12))]
     return out
+
+
+def gen_called_off_switch_script(rng):
+    """A switch of the full active blob that is called off (the client closes the blob before the worker gets to the
+    request) must leave no trace: no blob file the storage does not know, no burnt id, disk_used = the directory."""
+    maxrec = rng.choice([2, 3])
+    L = ['cfg K=4 dup=1 group=2 bloom=none init=eager runtime=%s maxrec=%d nomodel=1' % (rng.choice(['mt', 'ct']), maxrec), 'open', 'nop files']
+    seed = 0
+    def w():
+        nonlocal seed
+        seed += 1
+        L.append('W %s 5 - 5 %d' % ((seed % 3 + 1).to_bytes(4, 'big').hex(), seed))
+    for _ in range(maxrec - 1):
+        w()
+    L += ['autoquiesce 0', 'sleep 250']
+    w()                          # fills the blob and asks the worker for the switch ...
+    L.append('close_active')     # ... which finds no active blob any more
+    L += ['autoquiesce 1', 'quiesce', 'counts', 'ls', 'disk', 'ls']
+    L.append(rng.choice(['create_active', 'nop']))
+    for _ in range(rng.randrange(1, 4)):
+        w()
+    L += ['quiesce', 'counts', 'ls', 'disk', 'ls', 'close', 'open', 'counts', 'ls', 'disk', 'ls', 'close']
+    return '\n'.join(L) + '\n'
 
 
 def gen_quarantine_script(rng):
@@ -95,7 +119,7 @@ def tagger(lines, io, i, want, got):
 
 def oracle(lines, io, spec=None):
     fails = C.spec_oracle(lines, io, spec, ('counts',), tagger)
-    if any(l.startswith('trunc blob') for l in lines):
+    if any(l.startswith('trunc blob') or l == 'nop files' for l in lines):
         seen_ids = set()
         for i, l in enumerate(lines):
             if l == 'counts' and i + 1 < len(io) and lines[i + 1] == 'ls' and io[i].startswith('counts ') and io[i + 1].startswith('ls'):
